@@ -354,6 +354,10 @@ class Context:
         if isinstance(plugin_class.provides, str):
             plugin_class.provides = tuple([plugin_class.provides])
 
+        # Plugins resolved earlier may come from the class we are about to replace
+        # (the context hash does not see defaults or class names)
+        self._fixed_plugin_cache = None
+
         # Register the plugin for all datatypes it provides,
         # tracking which plugins we booted out.
         deregistered = []
